@@ -20,6 +20,7 @@ use http::HeaderValue;
 use log::debug;
 use log::error;
 use log::info;
+use log::warn;
 use lru_time_cache::Entry;
 use lru_time_cache::LruCache;
 use octo_squirrel::codec::BytesCodec;
@@ -29,6 +30,7 @@ use octo_squirrel::codec::WebSocketFramed;
 use octo_squirrel::config::ServerConfig;
 use octo_squirrel::config::WebSocketConfig;
 use octo_squirrel::protocol::address::Address;
+use octo_squirrel::protocol::socks5;
 use octo_squirrel::protocol::socks5::codec::Socks5UdpCodec;
 use octo_squirrel::relay;
 use octo_squirrel::relay::End;
@@ -56,6 +58,9 @@ use tokio_websockets::ClientBuilder;
 
 use super::config::SslConfig;
 use super::handshake;
+
+/// largest payload of a UDP datagram over IPv4
+const MAX_UDP_PAYLOAD: usize = 65507;
 
 pub async fn transfer_tcp<NewContext, Context, NewCodec, Codec>(
     listener: TcpListener,
@@ -228,6 +233,13 @@ where
             // client->local|mpsc
             Some((item, key)) = client_local_rx.recv() => {
                 client_server_cache.get(&key);
+                // a reply that does not fit into one datagram towards the application is dropped here: handed to the framed
+                // sink it could never be sent and would block every later reply to every application
+                let ((content, from), _): &(DatagramPacket, SocketAddr) = &item;
+                if 3 + socks5::address::length(from) + content.len() > MAX_UDP_PAYLOAD {
+                    warn!("[udp] reply of {} bytes from {} does not fit into a datagram; dropped", content.len(), from);
+                    continue;
+                }
                 client_local.send(item).await.unwrap_or_else(|e| error!("[udp] failed to send inbound msg; error={}", e));
             }
             // local->client|inbound
